@@ -10,12 +10,13 @@ RULE = ("(i) direct: AdbMessage(cmd,arg0,arg1,payload).pack()/unpack()/checksum(
         "whose complete bulk_write byte stream is parsed by the independent StreamParser (24-byte LE header, known command, magic == ~command, "
         "exactly data_length payload bytes, data_check == byte sum mod 2^32, no trailing partial message); (iii) big: payloads whose byte sum exceeds 2^32; "
         "(iv) threads: 2-3 concurrent operations under the controlled scheduler (yield at every transport call, lock operation and source line), where a header and its "
-        "payload can be torn apart by another sender unless the transport lock covers both writes. "
+        "payload can be torn apart by another sender unless the transport lock covers both writes; (v) stuck: the link takes j bytes of a write and then nothing until the "
+        "operation gives up, then the same object connects again (with / without close()): the new connection's byte stream must start with a well-formed CNXN and stay well formed. "
         "non-trivial = at least one message with a non-empty payload parsed; distinct = distinct (kind, command, payload-size bucket, arg class) / scenario signatures")
 ASSUMPTIONS = ["the command words and the header layout written out in vlib/wire.py (from AOSP adb.h / protocol.txt) are the protocol's"]
 SHARDS = {"quick": 8, "thorough": 16}
 TIME_BUDGET = {"quick": 300, "thorough": 1800}
-FLOORS = {"quick": {"concurrent_schedules": 200, "sum_exceeds_2_32": 1, "messages_parsed": 3000, "stream_messages": 1500, "distinct": 40}, "thorough": {"messages_parsed": 30000, "stream_messages": 15000, "distinct": 60}}
+FLOORS = {"quick": {"reconnects_after_stuck_write": 10, "concurrent_schedules": 200, "sum_exceeds_2_32": 1, "messages_parsed": 3000, "stream_messages": 1500, "distinct": 40}, "thorough": {"messages_parsed": 30000, "stream_messages": 15000, "distinct": 60}}
 
 ARGS = [0, 1, 2, 0x7FFFFFFF, 0x80000000, 0xFFFFFFFE, 0xFFFFFFFF]
 CMDS = ["AUTH", "CLSE", "CNXN", "OKAY", "OPEN", "SYNC", "WRTE"]
